@@ -34,8 +34,8 @@ Record dataarray := mkDA {
 
 Definition vdims_name : string := "vdims".
 Definition default_tf : Q := 1 # 1000000000000.          (* Region(tolerance_factor=1e-12) *)
-Definition np_rtol : Q := 1 # 100000.                    (* numpy.allclose defaults *)
-Definition np_atol : Q := 1 # 100000000.
+Definition np_rtol : Q := 1 # 100000.                    (* numpy.allclose default rtol *)
+Definition np_atol : Q := 0.                             (* the code passes atol=0 *)
 
 (* ---------- Field's component labels (vdims setter) ---------- *)
 Definition default_vdims (k : Z) : option (list string) :=
@@ -78,7 +78,7 @@ Definition to_xarray (f : field) (unit_arg : option string) : dataarray :=
 Definition diffs (v : list Q) : list Q := map2 Qminus (tl v) v.
 Definition qmean (l : list Q) : Q := qsum l / inject_Z (Z.of_nat (length l)).
 
-(* numpy.allclose(diff, diff.mean()):  |d - mu| <= atol + rtol*|mu| for every d.
+(* numpy.allclose(diff, diff.mean(), atol=0):  |d - mu| <= atol + rtol*|mu| for every d.
    [fac] scales the tolerance; the code is fac = 1 (the checker brackets float rounding
    with 1 -+ 1e-6). *)
 Definition evenly (fac : Q) (v : list Q) : bool :=
@@ -131,7 +131,7 @@ Definition from_xarray_f (fac : Q) (xa : dataarray) : res field :=
               | Some p => p
               | None => map2 (fun v cc => last v 0 + cc / 2) (xcoords xa) c
               end in
-    let us := match all_some (xcunits xa) with Some u => Some u | None => None end in
+    let us := all_some (xcunits xa) in
     do r <- mk_region p1 p2 (Some ds) us default_tf;
     do m <- mesh_by_cell r c;
     let r' := match a_tf xa with
@@ -156,3 +156,9 @@ Definition wf_vdims (k : Z) (v : option (list string)) : Prop :=
 Definition wf_field (f : field) : Prop :=
   wf_mesh (fmesh f) /\ (1 <= fnvdim f)%Z /\ wf_vdims (fnvdim f) (fvdims f) /\
   ~ In vdims_name (dims (reg (fmesh f))).
+
+(* equality of fields as Field.__eq__ sees it (mesh, nvdim, values) plus dtype tag and tolerance *)
+Definition field_same (f g : field) : Prop :=
+  let rf := reg (fmesh f) in let rg := reg (fmesh g) in
+  pmin rg = pmin rf /\ pmax rg = pmax rf /\ dims rg = dims rf /\ units rg = units rf /\ tf rg = tf rf /\
+  n (fmesh g) = n (fmesh f) /\ fnvdim g = fnvdim f /\ fdtype g = fdtype f /\ fdata g = fdata f.
